@@ -1,5 +1,6 @@
 import TwistedProps.C25.Loops
 import TwistedProps.C25.Parse
+import TwistedProps.C25.Gen
 /-!
 C25 — static file range requests return exactly the requested bytes.
 
@@ -15,6 +16,10 @@ The model (`TwistedModel/Http/Range.lean`) follows `twisted/web/static.py` after
 for every content, content type, boundary, header and every buffer size `bs > 0`
 (the code's `bufferSize` is 65536).  `resolve` is the RFC 9110 §14.1.2 reference; a zero-length
 file is taken to have no satisfiable range (no valid `Content-Range` exists for it).
+
+`gen_*`: `_rangeToOffsetAndSize` is regenerated from static.py on every run (`Generated.Range`,
+harness/py2lean.py) and proved equal to the model's `r2os` on every range the parser can produce
+(`TwistedProps/C25/Gen.lean`).
 -/
 namespace TwistedProps.C25
 open Twisted.Http.Range
@@ -98,6 +103,31 @@ theorem parse_valid {h : Bytes} {rs : List Rng} (hp : parseRangeHeader h = some 
         simp only [Option.some.injEq] at hp
         subst hp
         exact ⟨hne, parseElems_valid hrs⟩
+
+/-! ### the translator-regenerated `_rangeToOffsetAndSize` (see `TwistedProps/C25/Gen.lean`) -/
+
+/-- generated `_rangeToOffsetAndSize` = model `r2os` on every syntactically valid range-spec -/
+theorem gen_r2os (size : Nat) (r : Rng) (hv : valid r) : genR2os size r = asInt (r2os size r) := by
+  cases r with
+  | fromTo a b => exact gen_r2os_fromTo_eq size a b hv
+  | «from» a => exact gen_r2os_from_eq size a
+  | suffix n => exact gen_r2os_suffix_eq size n
+
+/-- … hence on every range of every header `_parseRangeHeader` accepts -/
+theorem gen_r2os_of_parse {h : Bytes} {rs : List Rng} (hp : parseRangeHeader h = some rs) (size : Nat) :
+    ∀ r ∈ rs, genR2os size r = asInt (r2os size r) :=
+  fun r hr => gen_r2os size r ((parse_valid hp).2 r hr)
+
+/-- over the generated definition: the range handed to the producers lies inside the file -/
+theorem gen_r2os_within (size : Nat) (r : Rng) (hv : valid r) :
+    0 ≤ (genR2os size r).1 ∧ 0 ≤ (genR2os size r).2 ∧ (genR2os size r).1 + (genR2os size r).2 ≤ size := by
+  have h := r2os_within size r
+  rw [gen_r2os size r hv]
+  simp only [asInt]
+  omega
+
+example : genR2os 10 (.suffix 3) = (7, 3) ∧ genR2os 10 (.fromTo 2 100) = (2, 8) ∧ genR2os 10 (.from 10) = (0, 0) := by
+  decide
 
 /-! ### the response -/
 
